@@ -47,6 +47,8 @@ def run(ctx: Ctx, pid: str, extended: bool = False) -> None:
         t0 = time.time()
         n_before = ctx.evaluations
         for cfg in ad.configs(ctx.tier):
+            if cfg.meta.get("only") and pid not in cfg.meta["only"]:
+                continue
             env = cfg.build()
             runner = Runner(env)
             fn = globals()[f"_{pid.lower()}"]
@@ -220,7 +222,8 @@ def _judge(ctx, ad, cfg, env, cases, drv, keys, kind_prefix):
         for k in keys:
             if k in v and v[k] is False:
                 ctx.fail(ad.name, f"{kind_prefix}:{k}", f"Lean predicate {k} is false on an implementation transition",
-                         {"config": cfg.cid, "reset_seed": r.get("seed"), "t": r.get("t"), "request": q})
+                         {"config": cfg.cid, "reset_seed": r.get("seed"), "t": r.get("t"), "request": q},
+                         (v.get("sig") or {}).get(k))
             if k in v and v[k] is not None:
                 ctx.count(f"{ad.name}.judge.{k}")
 
@@ -371,7 +374,8 @@ def _c12(ctx, ad, cfg, env, runner, rng, drv, mult):
         ctx.nontrivial.add((ad.name, state_key(impl_obs)))
         if d:
             ctx.fail(ad.name, "obs_vs_state", f"observation differs from the documented function of the state at {d[:4]}",
-                     _replay(ad, cfg, r, env, observed_state=ad.ser_state(env, s), impl_obs=impl_obs, expected_obs=st["obs"]))
+                     _replay(ad, cfg, r, env, observed_state=ad.ser_state(env, s), impl_obs=impl_obs, expected_obs=st["obs"]),
+                     (st.get("sig") or {}).get("obs"))
     if todo:
         ctx.sample({"env": ad.name, "config": cfg.cid, "obs_keys": sorted(ad.ser_obs(env, todo[0][2].observation).keys())})
 
@@ -444,3 +448,18 @@ def _c10(ctx, ad, cfg, env, runner, rng, drv, mult):
         ctx.fail(ad.name, "generator_constant", f"{n} different keys gave the same instance",
                  {"env": ad.name, "config": cfg.cid, "seeds": seeds[:8]})
     ctx.sample({"env": ad.name, "config": cfg.cid, "instances": n, "distinct": len(distinct)})
+
+
+# --------------------------------------------------------------------------------------
+# C17 — permutation puzzles: group laws, physical moves, solvability (RubiksCube, SlidingTilePuzzle)
+# --------------------------------------------------------------------------------------
+
+def _c17(ctx, ad, cfg, env, runner, rng, drv, mult):
+    # every transition met in play equals the rule-level move (state-independent permutation, conservation via the judge),
+    # the adapters' synthetic hooks check the group identities / encodings / solved test / scramble replay on the implementation,
+    # and the generator certificates (reachable from the goal) are evaluated on reset instances
+    _c09(ctx, ad, cfg, env, runner, rng, drv, mult)
+    if "judge" in ad.ops:
+        cases = [(r, r["action"], r["next"], r["ts"]) for r in rollouts(ad, env, runner, rng, budget(ctx, 3, 12) * mult) if not r["reset"]]
+        _judge(ctx, ad, cfg, env, cases, drv, ["conserved", "move_ok", "slide_ok", "rules_ok", "solved_ok"], "puzzle")
+    _c10(ctx, ad, cfg, env, runner, rng, drv, mult)
